@@ -308,7 +308,104 @@ func c11Exec(which int, cs hx.Sx) hx.Sx {
 		}
 		return hx.L(out...)
 	}
+	if which == 4 {
+		return c11ExecHistory(cs)
+	}
 	panic("c11: unknown which")
+}
+
+// which = 4: a history of gzip requests on one plugin.  case = (request ...): request = (read ...) | 1 (bad gzip header).
+// Requests run one after another, except the LAST TWO good ones, which overlap: the first of them is held inside
+// controller.In at its first event until the other one was served completely.  Request i only uses the letter 'A'+i.
+func c11ExecHistory(cs hx.Sx) hx.Sx {
+	p, ctl := c11Plugin()
+	reqs := hx.Items(cs)
+	n := len(reqs)
+	gz := func(reads [][]byte) io.ReadCloser {
+		var zb bytes.Buffer
+		zw := gzip.NewWriter(&zb)
+		for _, r := range reads {
+			zw.Write(r)
+		}
+		zw.Close()
+		return io.NopCloser(bytes.NewReader(zb.Bytes()))
+	}
+	// the two overlapping requests: the last two good ones
+	var good []int
+	for i, r := range reqs {
+		if !hx.IsInt(r) {
+			good = append(good, i)
+		}
+	}
+	ovA, ovB := -1, -1
+	if len(good) >= 2 {
+		ovA, ovB = good[len(good)-2], good[len(good)-1]
+	}
+	codes := make([]int, n)
+	for i, r := range reqs {
+		switch {
+		case hx.IsInt(r):
+			codes[i] = c11Serve(p, io.NopCloser(bytes.NewReader([]byte("this is not a gzip stream\n"))), true)
+		case i == ovA:
+			held := make(chan struct{})
+			release := make(chan struct{})
+			first := true
+			ctl.mu.Lock()
+			ctl.onIn = func(pipeline.SourceID) {
+				// only the goroutine of request A reaches this hook first (B has not started yet)
+				if first {
+					first = false
+					close(held)
+					<-release
+				}
+			}
+			ctl.mu.Unlock()
+			doneA := make(chan struct{})
+			go func() { codes[ovA] = c11Serve(p, gz(c11Reads(reqs[ovA])), true); close(doneA) }()
+			select {
+			case <-held:
+			case <-doneA: // no event at all (empty body)
+			}
+			codes[ovB] = c11Serve(p, gz(c11Reads(reqs[ovB])), true)
+			close(release)
+			<-doneA
+			ctl.mu.Lock()
+			ctl.onIn = nil
+			ctl.mu.Unlock()
+		case i == ovB:
+			// served inside the previous step
+		default:
+			codes[i] = c11Serve(p, gz(c11Reads(r)), true)
+		}
+	}
+	ctl.mu.Lock()
+	defer ctl.mu.Unlock()
+	perReq := make([][][]byte, n)
+	for _, e := range ctl.log {
+		owner := -1
+		for _, c := range e {
+			if c >= 'A' && c < 'A'+byte(n) {
+				if owner == -1 {
+					owner = int(c - 'A')
+				} else if owner != int(c-'A') {
+					owner = -2
+				}
+			}
+		}
+		switch {
+		case owner >= 0:
+			perReq[owner] = append(perReq[owner], e)
+		case owner == -2:
+			perReq[0] = append(perReq[0], []byte("MIXED-BYTES"))
+		default:
+			perReq[0] = append(perReq[0], []byte("UNATTRIBUTED"))
+		}
+	}
+	out := make([]hx.Sx, n)
+	for i := range out {
+		out[i] = c11Obs(perReq[i], codes[i])
+	}
+	return hx.L(out...)
 }
 
 func c11Chunkings(body []byte, f func(reads []hx.Sx, nchunks int)) {
@@ -486,10 +583,37 @@ func c11Gen(c *hmain.Ctx) {
 		}
 		c.Do("concurrent", 3, hx.L(hx.L(reqs...), hx.L(order...)), true)
 	}
+	// 7. gzip request histories on one plugin: good requests, rejected ones (bad gzip header), then two overlapping
+	//    requests with bodies larger than the read buffer: pooled readers / buffers must never be shared
+	for i := 0; i < 24*c.Scale; i++ {
+		var reqs []hx.Sx
+		nreq := r.Range(3, 6)
+		for j := 0; j < nreq; j++ {
+			if j > 0 && j < nreq-2 && r.Chance(1, 2) {
+				reqs = append(reqs, hx.I(1))
+				continue
+			}
+			letter := byte('A' + j)
+			var body []byte
+			nl := r.Range(1, 40)
+			if j >= nreq-2 {
+				nl = r.Range(1500, 2500) // > 16 KiB
+			}
+			for k := 0; k < nl; k++ {
+				body = append(body, bytes.Repeat([]byte{letter}, r.Range(1, 14))...)
+				body = append(body, '\n')
+			}
+			if r.Bool() {
+				body = append(body, letter) // unterminated last line
+			}
+			reqs = append(reqs, hx.L(hx.B(body)))
+		}
+		c.Do("gzip-history", 4, hx.L(reqs...), true)
+	}
 }
 
 func main() {
 	hmain.Run(&hmain.Prop{ID: "C11",
-		Rule: "exhaustive: every body over {a,b,\\n,\\r} up to the tier's length x every chunking; random bodies/chunkings incl. reads > 16KiB, empty reads, read errors, gzip, source-id scripts, scripted concurrent requests. Non-trivial = body has a newline and >= 2 reads, or a read error / id script of >= 3 ops / concurrent case; distinct = distinct (sub-model, case) text.",
+		Rule: "exhaustive: every body over {a,b,\\n,\\r} up to the tier's length x every chunking; random bodies/chunkings incl. reads > 16KiB, empty reads, read errors, gzip, source-id scripts, scripted concurrent requests, gzip request histories (good / rejected / two overlapping large requests on one plugin). Non-trivial = body has a newline and >= 2 reads, or a read error / id script of >= 3 ops / concurrent case; distinct = distinct (sub-model, case) text.",
 		Gen:  c11Gen, Exec: c11Exec})
 }
